@@ -18,6 +18,7 @@ class Ctx:
         self.rule_args = unit.rule_args
         self.unit = unit
         self.source_fns = {}
+        self.lifted = {}
 
     def add_source(self, sf):
         def walk(items):
@@ -342,7 +343,15 @@ def build(unit_path, repo=None, extra_tail=''):
             sources[it.source] = SourceFile(os.path.join(repo, it.source))
             ctx.add_source(sources[it.source])
         sf = sources[it.source]
-        item = sf.find(it.path)
+        if it.path.startswith('lifted '):
+            from extract import Item
+            lname = it.path.split()[1]
+            if lname not in ctx.lifted:
+                raise Undecided('lifted function %s has not been produced by a rule (R19/R16) before this item' % lname)
+            lsig, lbody = ctx.lifted[lname]
+            item = Item('fn', None, lname, lsig + lbody, 0, sig=lsig + ' ', body=lbody)
+        else:
+            item = sf.find(it.path)
         rule_names = it.rules if it.rules is not None else u.rules
         ctx.rule_args = dict(u.rule_args)
         for k_, v_ in it.rule_args.items():
@@ -431,7 +440,7 @@ def build(unit_path, repo=None, extra_tail=''):
             chunk = '%s    %s // @@fn:%s\n%s    %s\n' % (pre, sig.strip(), fname, contract, body2)
         item_chunks.append('// ---- %s\n%s' % (where, chunk))
         g.functions.append({'name': fname, 'kind': 'fn', 'source': it.source, 'path': it.path, 'line': sf.line_of(item), 'sha': sha(item.text),
-                            'rules': fired, 'verbatim': not fired and not it.as_header, 'props': it.props,
+                            'rules': fired, 'verbatim': not fired and not it.as_header and not it.path.startswith('lifted '), 'props': it.props,
                             'external_body': it.external_body, 'has_body': body is not None, 'included_from': included})
     close_impl()
     parts += item_chunks
